@@ -1,5 +1,6 @@
 import RisorModel.Util
 import RisorModel.C15.Model
+import RisorModel.C15.Dispatch
 /-!
 Line-protocol front end of the C15 model (requests after the leading `C15` field).
 
@@ -23,6 +24,11 @@ Requests:
   maphist <L table> <init k:i,…> <ops> <probe keys k,…> → the same for a map: `<ok> <entries k:i,…> <has-key bits>`
                        (ops: s<k>:<i> assign, d<k> delete(), p<k> pop, f<k>:<i> setdefault, b rejected key, c clear, o observe;
                         keys hex, the empty key is `-`)
+  xpair <a> <b>      → eq= qe= cmp= pmc= hkeq= cross= twins=
+                       (a, b: a value as above, or `Y <hex>` a byte_slice, or
+                        `W <sec> <nsec> <monotonic reading | -> <location id>` a time;
+                        hkeq: both hashable with the same hash key = 1, both hashable with different keys = 0,
+                        else `none`; cross: guard `crossBytes`; twins: guard `timeTwins`)
 -/
 namespace Risor.C15
 open Risor.Util
@@ -231,7 +237,30 @@ def handleH : List String → String
     | _ => "error\tbad-value"
   | _ => "error\tunknown-request"
 
+def parseX (s : String) : Option XVal :=
+  match (s.splitOn " ").filter (· ≠ "") with
+  | ["Y", h] => (fromHex h).map fun bs => XVal.bslice bs
+  | ["W", sec, nsec, mono, loc] =>
+    match sec.toInt?, nsec.toNat?, loc.toNat? with
+    | some s', some n, some l =>
+      if mono = "-" then some (.time ⟨s', n, none, l⟩)
+      else mono.toInt?.map fun m => XVal.time ⟨s', n, some m, l⟩
+    | _, _, _ => none
+  | _ => (parseField s).map XVal.base
+
 def handle : List String → String
+  | ["xpair", a, b] =>
+    match parseX a, parseX b with
+    | some a, some b =>
+      " ".intercalate [
+        "eq=" ++ b01 (vequals a b), "qe=" ++ b01 (vequals b a),
+        "cmp=" ++ showOI (vcompare a b), "pmc=" ++ showOI (vcompare b a),
+        "hkeq=" ++ (match vhashKey a, vhashKey b with
+          | some k, some k' => b01 (decide (k = k'))
+          | _, _ => "none"),
+        "cross=" ++ b01 (crossBytes a b),
+        "twins=" ++ (match a, b with | .time s, .time t => b01 (timeTwins s t) | _, _ => "0")]
+    | _, _ => "error\tbad-value"
   | ["pair", a, b] =>
     match parseField a, parseField b with
     | some a, some b =>
